@@ -50,6 +50,9 @@ def cases(tier, seed):
         idx += 1
         out.append({"kind": "entries", "cls": "entries:gauss", "entry": "gauss", "idx": idx, "seed": seed, "maxd": maxd, "dims": list(dims)})
         idx += 1
+    for d in range(12 if tier == "quick" else 80):
+        out.append({"kind": "history", "cls": "history", "idx": idx, "seed": seed})
+        idx += 1
     for d in range(draws * 2):
         out.append({"kind": "layout", "cls": "layout", "idx": idx, "seed": seed, "maxd": maxd})
         idx += 1
@@ -79,7 +82,21 @@ def cases(tier, seed):
 
 def run_case(spec, ctx, R):
     {"spectrum": _spectrum, "entries": _entries, "layout": _layout, "scaled": _scaled,
-     "canonical": _canonical, "extreme": _extreme, "colstruct": _colstruct}[spec["kind"]](spec, ctx, R)
+     "canonical": _canonical, "extreme": _extreme, "colstruct": _colstruct, "history": _history}[spec["kind"]](spec, ctx, R)
+
+
+def _history(spec, ctx, R):
+    """One buffer, many calls: the caller's own object, the same object updated in place, views that keep its address."""
+    rng = gen.rng_for(spec["seed"], "c05hist", spec["idx"])
+    m, n = [(4, 4), (5, 3), (3, 5), (6, 6), (2, 2), (6, 4)][spec["idx"] % 6]
+    A = refq.randq(rng, m, n)
+    ctx.distinct("history", A)
+    for lab, X in gen.history_forms(A):
+        s_true = embed.svals(X)
+        if ambiguous(s_true):
+            continue
+        judge(ctx, R, X, s_true, "history:" + lab)
+    ctx.hit("history:one_buffer_many_calls")
 
 
 def _shape(rng, maxd, idx):
